@@ -1,6 +1,7 @@
 package connsim
 
 import (
+	"fmt"
 	"sort"
 	"strings"
 	"sync"
@@ -10,6 +11,7 @@ import (
 	"qchen.fun/fatchoy"
 	"qchen.fun/fatchoy/codec"
 	"qchen.fun/fatchoy/packet"
+	"qchen.fun/fatchoy/qnet"
 	. "verifharness/common"
 )
 
@@ -237,6 +239,9 @@ func (sim *Sim) runGated(enc codec.Encoder) {
 		time.Sleep(50 * time.Microsecond)
 	}
 	g.settle()
+	sim.mu.Lock()
+	sim.current = -1
+	sim.mu.Unlock()
 	for _, d := range sim.cfg.Script {
 		if g.aborted {
 			break
@@ -278,6 +283,11 @@ func (sim *Sim) runGated(enc codec.Encoder) {
 	if !g.aborted && sim.stuck == 0 {
 		g.finish()
 	}
+	sim.mu.Lock()
+	if sim.desync > 0 {
+		sim.inconcl = append(sim.inconcl, fmt.Sprintf("serialization lost: %d arrivals from goroutines that were neither released nor parked in connection code", sim.desync))
+	}
+	sim.mu.Unlock()
 	// leave gated mode; rescue a stuck connection so that the process can go on
 	sim.openGates()
 	stop := make(chan struct{})
@@ -313,6 +323,55 @@ func (sim *Sim) runGated(enc codec.Encoder) {
 
 // ---------------------------------------------------------------- free mode
 
+// stuckEvidence: every goroutine of the connection is parked in a channel / WaitGroup
+// operation (none is running, none is in a network wait, none is at a harness point), twice
+// 50 ms apart with the same picture, while the environment owes nothing (peer reading,
+// inbound drained or the reader not parked on it): a state no schedule of the model can be
+// in for more than an instant.  Returns the summary, or "" if this is not such a state.
+func (sim *Sim) stuckEvidence() string {
+	snap := func() (string, bool) {
+		var parts []string
+		n := 0
+		for _, g := range allStacks() {
+			if !strings.Contains(g.text, "qchen.fun/fatchoy/qnet.") {
+				continue
+			}
+			if strings.Contains(g.text, "connsim.(*Sim).point") {
+				return "", false
+			}
+			switch g.status {
+			case "chan receive", "chan send", "select", "semacquire", "sync.WaitGroup.Wait":
+			default:
+				return "", false
+			}
+			if !parkedInConn(g.text) {
+				return "", false
+			}
+			fn := "?"
+			for _, name := range []string{"readPump", "writePump", "finally", "notifyErr", "Close", "ForceClose", "SendPacket"} {
+				if strings.Contains(g.text, ")."+name+"(") {
+					fn = name
+					break
+				}
+			}
+			parts = append(parts, fn+":"+g.status)
+			n++
+		}
+		sort.Strings(parts)
+		return strings.Join(parts, ","), n > 0
+	}
+	a, ok := snap()
+	if !ok {
+		return ""
+	}
+	time.Sleep(50 * time.Millisecond)
+	b, ok := snap()
+	if !ok || a != b {
+		return ""
+	}
+	return a
+}
+
 func (sim *Sim) runFree(enc codec.Encoder) {
 	cfg := sim.cfg
 	slow := 0
@@ -323,7 +382,9 @@ func (sim *Sim) runFree(enc codec.Encoder) {
 		close(sim.peerStart)
 	}
 	go sim.peerReader(slow)
-	sim.conn.Go(sim.goFlag())
+	if cfg.Immediate == 0 {
+		sim.conn.Go(sim.goFlag())
+	}
 
 	stop := make(chan struct{})
 	var bg sync.WaitGroup
@@ -381,6 +442,12 @@ func (sim *Sim) runFree(enc codec.Encoder) {
 		}()
 	}
 
+	if cfg.Immediate == 1 {
+		sim.runImmediate()
+		close(stop)
+		bg.Wait()
+		return
+	}
 	var sw sync.WaitGroup
 	for i := range cfg.Senders {
 		sw.Add(1)
@@ -409,15 +476,28 @@ func (sim *Sim) runFree(enc codec.Encoder) {
 	case <-closersDone:
 	case <-time.After(6 * time.Second):
 		// Close pending: only a goroutine dump showing the modelled stuck state makes this a finding
-		sum := sim.blockedSummary()
-		if strings.Contains(sum, "readPump:chan send") && strings.Contains(sum, "finally:") {
+		if ev := sim.stuckEvidence(); ev != "" {
 			sim.stuck = 1
-			sim.stuckWhat = "stuck: " + sum
+			sim.stuckWhat = "stuck: " + ev
 		} else {
-			sim.inconclusive("close still pending after 6s: %s", sum)
+			sim.inconclusive("close still pending after 6s: %s", sim.blockedSummary())
 		}
 		if cfg.InConsumer != 1 {
 			startDrain()
+		}
+		if sim.errch != nil { // rescue a closer parked on the error channel
+			bg.Add(1)
+			go func() {
+				defer bg.Done()
+				for {
+					select {
+					case <-stop:
+						return
+					case e := <-sim.errch:
+						sim.noteErr(e)
+					}
+				}
+			}()
 		}
 		select {
 		case <-closersDone:
@@ -437,9 +517,9 @@ func (sim *Sim) runFree(enc codec.Encoder) {
 	}
 	if sim.pumpsAlive() {
 		sum := sim.blockedSummary()
-		if strings.Contains(sum, "readPump:chan send") && strings.Contains(sum, "finally:") {
+		if ev := sim.stuckEvidence(); ev != "" {
 			sim.stuck = 1
-			sim.stuckWhat = "stuck: " + sum
+			sim.stuckWhat = "stuck: " + ev
 			if cfg.InConsumer != 1 {
 				startDrain()
 			}
@@ -454,4 +534,94 @@ func (sim *Sim) runFree(enc codec.Encoder) {
 	close(stop)
 	bg.Wait()
 	_ = atomic.LoadInt32(&sim.panics)
+}
+
+// runImmediate: Go(); SendPacket x N; Close() back to back on this goroutine — the pumps get
+// no chance to settle before the sends and the close (with GOMAXPROCS=1 they have not even
+// started when Close reaches wg.Wait).
+func (sim *Sim) runImmediate() {
+	cfg := sim.cfg
+	type res struct{ id, code int }
+	var rs []res
+	closeRes := 1
+	done := make(chan struct{})
+	go func() {
+		defer close(done)
+		sim.register(TSender * 1000)
+		sim.conn.Go(sim.goFlag())
+		if len(cfg.Senders) > 0 {
+			for _, p := range cfg.Senders[0] {
+				sim.point(PSendBegin, p.ID)
+				code := 0
+				pkt := mkPacket(p)
+				panicked, _ := Catch(func() {
+					switch sim.conn.SendPacket(pkt) {
+					case nil:
+						code = 0
+					case qnet.ErrConnIsClosing:
+						code = 1
+					case qnet.ErrConnOutboundOverflow:
+						code = 2
+					default:
+						code = 4
+					}
+				})
+				if panicked {
+					code = 3
+					atomic.AddInt32(&sim.panics, 1)
+				}
+				rs = append(rs, res{p.ID, code})
+				sim.point(PSendRet, code)
+			}
+		}
+		sim.rebind(TCloser * 1000)
+		sim.point(PCloseBegin, 0)
+		if p, _ := Catch(func() { sim.conn.Close() }); p {
+			closeRes = 3
+			atomic.AddInt32(&sim.panics, 1)
+		}
+		sim.point(PCloseRet, closeRes)
+	}()
+	select {
+	case <-done:
+	case <-time.After(8 * time.Second):
+		if ev := sim.stuckEvidence(); ev != "" {
+			sim.stuck = 1
+			sim.stuckWhat = "stuck: " + ev
+		} else {
+			sim.inconclusive("immediate scenario still pending after 8s: %s", sim.blockedSummary())
+		}
+		go func() {
+			for p := range sim.inbound {
+				sim.noteInbound(p)
+			}
+		}()
+		select {
+		case <-done:
+		case <-time.After(5 * time.Second):
+			return
+		}
+	}
+	sim.mu.Lock()
+	if len(cfg.Senders) > 0 {
+		for _, r := range rs {
+			sim.results[0] = append(sim.results[0], [2]int{r.id, r.code})
+		}
+	}
+	if len(sim.closeRes) > 0 {
+		sim.closeRes[0] = closeRes
+	}
+	sim.mu.Unlock()
+	end := time.Now().Add(5 * time.Second)
+	for sim.pumpsAlive() && time.Now().Before(end) {
+		time.Sleep(200 * time.Microsecond)
+	}
+	if sim.pumpsAlive() {
+		if ev := sim.stuckEvidence(); ev != "" {
+			sim.stuck = 1
+			sim.stuckWhat = "stuck: " + ev
+		} else {
+			sim.inconclusive("pumps still alive 5s after the immediate close returned: %s", sim.blockedSummary())
+		}
+	}
 }
